@@ -1,4 +1,4 @@
-import argparse, fcntl, glob, hashlib, json, os, re, shutil, subprocess, sys, time
+import argparse, fcntl, glob, hashlib, json, os, re, shutil, subprocess, sys, tempfile, time
 from concurrent.futures import ThreadPoolExecutor
 
 VERIF = os.path.dirname(os.path.dirname(os.path.abspath(__file__)))
@@ -335,7 +335,11 @@ def collect_rm(res, jobs, prop, props=None):
             res.inconclusive.append("job %s: unreadable result: %s" % (j["name"], e))
             continue
         if not bo.get("done"):
-            res.inconclusive.append("job %s did not finish (rc=%s, watchdog or crash); see %s" % (j["name"], j.get("rc"), j["work"]))
+            fv = fatal_violation(j, prop, res) if j.get("fatal_is_violation") else None
+            if fv:
+                res.viol.append(fv)
+            else:
+                res.inconclusive.append("job %s did not finish (rc=%s, watchdog or crash); see %s" % (j["name"], j.get("rc"), j["work"]))
         res.add_stats(bo.get("stats", {}))
         for p in [RM_SEEN_KEY.get(prop, prop)]:
             for h in bo.get("seen", {}).get(p, []) or []:
@@ -475,6 +479,47 @@ def lib_jobs(key, tier, seed, libbin, rundir, tag=""):
     return jobs
 
 
+def fatal_violation(j, prop, res):
+    """A child that died by itself (not by our timeout) without finishing: for C14 that is the process-fatal form of
+    'a handler never panics' (Go fatal error, os.Exit, log.Fatal). The call is named by what the child wrote to disk
+    before making it. A timeout (rc 124/137) stays inconclusive."""
+    rc = j.get("rc")
+    if rc in (0, 124, 137, None):
+        return None
+    try:
+        err = open(os.path.join(j["work"], "stderr.txt"), errors="replace").read()
+    except Exception:
+        err = ""
+    m = re.search(r"^(fatal error: .*|panic: .*|runtime: .*)$", err, re.M)
+    first = m.group(1)[:160] if m else "exit status %s" % rc
+    if m:
+        # blame: the first non-runtime frame of the first goroutine dumped must be code under test, not the driver
+        tail = err[m.end():]
+        fr = re.findall(r"^([A-Za-z0-9_./\-]+(?:\.\([^)]*\))?[A-Za-z0-9_.\[\]]*)\(.*\)\n\t(\S+?):\d+", tail, re.M)
+        for fn, path in fr:
+            if fn.startswith(("runtime.", "runtime/", "panic", "testing.", "sync.", "internal/")):
+                continue
+            if not fn.startswith("github.com/containers/nri-plugins/") or "/verif_" in path or path.startswith(VERIF):
+                return None
+            break
+    step = ""
+    for d in (j.get("scratch"), j["work"]):
+        f = os.path.join(d or "", "current-step.txt")
+        if d and os.path.exists(f):
+            lines = open(f, errors="replace").read().strip().splitlines()
+            step = lines[-1] if lines else ""
+            break
+    w = ""
+    for d in (j.get("scratch"), j["work"]):
+        f = os.path.join(d or "", "current-case.json")
+        if d and os.path.exists(f):
+            w = save_replay(prop, f, "s%s-fatal-%s" % (res.seed, j["name"].replace("/", "_")))
+            break
+    sig = re.sub(r"[0-9a-fx]{6,}", "N", first)
+    return dict(prop=prop, check="process-fatal", sig="%s:%s" % (j["name"].split("/")[0], sig),
+                msg="child process died (rc=%s) during %s: %s" % (rc, step or "a call", first), replay=w)
+
+
 def collect_out(res, jobs, prop):
     """Merge libdrv.Out-shaped results."""
     for j in jobs:
@@ -496,8 +541,15 @@ def collect_out(res, jobs, prop):
             res.inconclusive.append("job %s: unreadable result: %s" % (j["name"], e))
             continue
         if not o.get("done"):
-            res.inconclusive.append("job %s did not finish" % j["name"])
-        res.add_stats(o.get("stats") or {})
+            fv = fatal_violation(j, prop, res) if j.get("fatal_is_violation") else None
+            if fv:
+                res.viol.append(fv)
+            else:
+                res.inconclusive.append("job %s did not finish (rc=%s)" % (j["name"], j.get("rc")))
+        st = o.get("stats") or {}
+        if j.get("stat_prefix"):
+            st = {j["stat_prefix"] + k: v for k, v in st.items()}
+        res.add_stats(st)
         res.evaluations += o.get("evaluations", 0)
         for h in o.get("seen") or []:
             res.seen.add(h)
@@ -602,6 +654,111 @@ def replay_c17(prop, path):
     return p.returncode
 
 
+# ---------------------------------------------------------------- side engine (memory-qos, memtierd, sgx-epc: C14, C18)
+
+SIDE_PLUGINS = ["memory-qos", "memtierd", "sgx-epc"]
+# (shards, N per shard) per plugin: N = event sequences (C14) / annotation maps (C18)
+SIDE_N = {
+    "C14": {"quick": {"memory-qos": (4, 1500), "memtierd": (6, 500), "sgx-epc": (6, 500)},
+            "thorough": {"memory-qos": (4, 15000), "memtierd": (6, 5000), "sgx-epc": (6, 5000)}},
+    "C18": {"quick": {"memory-qos": (4, 8000), "memtierd": (8, 600), "sgx-epc": (4, 5000)},
+            "thorough": {"memory-qos": (4, 120000), "memtierd": (8, 6000), "sgx-epc": (4, 75000)}},
+}
+
+
+def side_jobs(prop, tier, seed, rundir):
+    jobs = []
+    for pl in SIDE_PLUGINS:
+        tb = build_gotest("./cmd/plugins/%s/" % pl, "side-%s.test" % pl)
+        shards, n = SIDE_N[prop][tier][pl]
+        for sh in range(shards):
+            work = os.path.join(rundir, "side-%s-%02d" % (pl, sh))
+            out = os.path.join(work, "out.json")
+            env = {"VERIF_PROP": prop, "VERIF_SEED": str(seed), "VERIF_SHARD": str(sh), "VERIF_N": str(n), "VERIF_TIER": tier,
+                   "VERIF_OUT": out, "VERIF_WORK": work, "GOMAXPROCS": "2"}
+            jobs.append(dict(cmd=[tb, "-test.run", "^TestVerifSide$"], env=env, work=work, out=out, name="%s/%d" % (pl, sh), cwd=work,
+                             stat_prefix=pl + ":", fatal_is_violation=(prop == "C14"), timeout=1800 if tier == "quick" else 10800))
+    return jobs
+
+
+SIDE_ASSUMPTIONS = [
+    "side plugins: the plugin struct is set up as main() does and its NRI handlers are called directly (no ttrpc); memtierd runs against a fake memtierd binary, cgroup and run directories under the job's work directory",
+    "container/pod/namespace names containing '/', '.' or '..' are not generated for memtierd (it builds file-system paths from them; Kubernetes rejects such names)",
+]
+
+
+def check_c14(prop, tier, seed):
+    spec = MODE_SPECS["C14"]
+    res = Result(prop, tier, seed)
+    rmbin = build("rm")
+    rundir = os.path.join(BUILD, "run", "%s-%d" % (prop, os.getpid()))
+    shutil.rmtree(rundir, ignore_errors=True)
+    rj = rm_jobs(prop, tier, seed, rmbin, os.path.join(rundir, "hostile"), mode="hostile", spec=spec)
+    for j in rj:
+        j["fatal_is_violation"] = True
+    sj = side_jobs(prop, tier, seed, rundir)
+    jobs = run_jobs(rj + sj)
+    collect_rm(res, [j for j in jobs if "stat_prefix" not in j], prop)
+    ev = res.evaluations
+    collect_out(res, [j for j in jobs if "stat_prefix" in j], prop)
+    res.evaluations += ev
+    floors = dict(spec["floors"])
+    for pl in SIDE_PLUGINS:
+        floors[pl + ":call_CreateContainer_ok"] = 1500
+        floors[pl + ":call_CreateContainer_refused"] = 800
+        floors[pl + ":canary_after_refused"] = 1500
+        floors[pl + ":canary_final"] = 2000
+    floors["memory-qos:call_CreateContainer_without_configuration"] = 500
+    floors["memtierd:call_StartContainer_prepared_memtierd"] = 20
+    rule = spec["rule"] + " || side plugins: N event sequences per shard on a fresh memory-qos / memtierd / sgx-epc plugin instance each (1-8 handler calls: missing or hostile configuration, absent resource sub-messages, 13 classes of hostile annotation values for every interpreted key, unknown/duplicate/out-of-order containers), every call under recover with log.Fatal turned into a panic; after every refused or panicked call and at the end of every case a benign canary sequence must answer exactly like a fresh instance; a child process that dies is attributed to the call logged before it"
+    rc = finish(res, dict(spec, floors=floors, rule=rule, level="exploration", assumptions=RM_ASSUMPTIONS + SIDE_ASSUMPTIONS))
+    if rc == 0:
+        shutil.rmtree(rundir, ignore_errors=True)
+    return rc
+
+
+C18_SPEC = dict(
+    floors={"maps_typed": 3000, "memory-qos:target_form_ctr-over-pod": 2000, "memtierd:target_form_ctr-over-pod": 300, "memory-qos:maps_with_other_container_annotations": 5000,
+            "memory-qos:explicit_param_vs_class_conflict": 1000, "memtierd:explicit_param_vs_class_conflict": 100},
+    rule="resource-policy cache: N annotation maps per shard on real cache pods (container names that are prefixes/suffixes of each other, look-alike keys), 4 insertion orders x 16 repetitions per query against a doc-derived resolver, plus the typed helpers of cache and topology-aware policy || side plugins: N annotation maps per shard per plugin, each evaluated 16 times through the real CreateContainer (memtierd also StartContainer, sgx-epc also parseEpcLimit) with the Go map rebuilt in a shuffled insertion order, and once on the map reduced to the effective annotations; reference resolvers written from docs/memory/*.md; explicit cgroup parameters vs class-derived values; distinct = (name-relation class, forms present per key, look-alike count, class kind, outcome class)",
+)
+
+
+def check_c18(prop, tier, seed):
+    res = Result(prop, tier, seed)
+    libbin = build("lib")
+    rundir = os.path.join(BUILD, "run", "%s-%d" % (prop, os.getpid()))
+    shutil.rmtree(rundir, ignore_errors=True)
+    lj = lib_jobs("C18lib", tier, seed, libbin, os.path.join(rundir, "lib"))
+    sj = side_jobs(prop, tier, seed, rundir)
+    jobs = run_jobs(lj + sj)
+    collect_out(res, jobs, prop)
+    rc = finish(res, dict(C18_SPEC, level="exploration", assumptions=LIB_ASSUMPTIONS + SIDE_ASSUMPTIONS))
+    if rc == 0:
+        shutil.rmtree(rundir, ignore_errors=True)
+    return rc
+
+
+def replay_side(prop, path):
+    """Witnesses of the side engine name their plugin; everything else goes to the engine that wrote it."""
+    try:
+        w = json.load(open(path))
+    except Exception:
+        w = {}
+    pl = w.get("plugin") if isinstance(w, dict) else None
+    if pl in SIDE_PLUGINS:
+        tb = build_gotest("./cmd/plugins/%s/" % pl, "side-%s.test" % pl)
+        work = tempfile.mkdtemp(prefix="replay-", dir=os.path.join(BUILD, "run"))
+        try:
+            p = subprocess.run([tb, "-test.run", "^TestVerifSide$"], env=dict(os.environ, VERIF_PROP=prop, VERIF_REPLAY=os.path.abspath(path), VERIF_WORK=work), cwd=work, stderr=subprocess.DEVNULL)
+        finally:
+            shutil.rmtree(work, ignore_errors=True)
+        return 1 if p.returncode != 0 else 0
+    if prop == "C18":
+        return replay_lib(prop, path)
+    return replay(prop, path)
+
+
 # ---------------------------------------------------------------- dispatch
 
 CHECKS = {}
@@ -612,6 +769,8 @@ for _p in MODE_SPECS:
 for _p in ("C06", "C07", "C08", "C16", "C19", "C20"):
     CHECKS[_p] = check_lib
 CHECKS["C17"] = check_c17
+CHECKS["C14"] = check_c14
+CHECKS["C18"] = check_c18
 CHECKS["C15"] = check_c15
 
 
@@ -634,6 +793,8 @@ def main(argv):
             build("rm", race=True)
             build("lib")
             build_gotest("./pkg/agent/", "agent.test")
+            for pl in SIDE_PLUGINS:
+                build_gotest("./cmd/plugins/%s/" % pl, "side-%s.test" % pl)
         except Inconclusive as e:
             log("setup failed: %s" % e)
             return 2
@@ -653,4 +814,4 @@ def main(argv):
         return 2
 
 
-REPLAYS = {"C06": replay_lib, "C07": replay_lib, "C08": replay_lib, "C16": replay_lib, "C19": replay_lib, "C20": replay_lib, "C17": replay_c17}
+REPLAYS = {"C14": replay_side, "C18": replay_side, "C06": replay_lib, "C07": replay_lib, "C08": replay_lib, "C16": replay_lib, "C19": replay_lib, "C20": replay_lib, "C17": replay_c17}
